@@ -25,6 +25,15 @@ CHECKS = {
     "C04": ("exploration", E1 + " (all atom sequences up to N, all single/double mutations of valid codes)",
             "Every string over a 31-atom lexical alphabet up to 4 (quick) / 5 (thorough) atoms, plus every single mutation of ~380 grammar-derived valid codes, is parsed by the real parse_cdc; outcome must be a Circuit, a parsing/tokenizing error or an explained ValueError; accepted strings must simulate (or raise an impedance error) and their serialisation must re-parse. Exhaustive within the stated alphabet and bound, which is the right level for a totality claim over strings.",
             "Strings outside the atom alphabet are only reached through mutations; a parse > 2 s counts as a hang.", "DESIGN.md section 4, C04"),
+    "C05": ("model_checking", E2 + " (DataSet histories vs list-of-triples model)",
+            "Explicit-state BFS over DataSet operation histories (construction from ascending/descending data with every small mask dictionary, set_mask, low/high pass, subtraction, dict/JSON export-import with optional keys dropped, repeated import of one dict, duplicate, average) on the real class for 1..4 (5) points to depth 4-5 (5-7); after every transition every observer and the caller's dictionaries are compared with a reference model. All histories up to the depth bound over the stated operation menu are covered.",
+            "Operation menu and mask dictionaries are bounded (<= 2-4 present keys); aliasing of returned arrays/dicts is not part of the property and not checked.", "DESIGN.md section 4, C05"),
+    "C14": ("model_checking", E2 + " (element parameter API histories vs dictionary state machine; copy/deepcopy/re-parse oracles)",
+            "Explicit-state BFS over call histories of the element parameter API on five classes (1- and 2-parameter elements, +-inf box, container) to depth 3-4 (4-6) with valid and invalid calls in keyword and positional form; every transition is compared with a reference state machine; copy, deepcopy and re-parse equality/independence are checked in every state whose values lie within their limits; class defaults and fresh instances are re-observed after every call.",
+            "Value menus are 5 points per parameter; multi-key calls are modelled as applied in order up to the first refused key.", "DESIGN.md section 4, C14"),
+    "C15": ("model_checking", E2 + " (registry histories from a harness-made hard reset vs reference registry)",
+            "Explicit-state BFS over histories of register_element / remove_elements / reset / set_default_values / reset_default_parameter_values with seven user definitions (valid, duplicate symbol, inconsistent impedance, shadowing, prefix-sharing, invalid symbols) to depth 4 (7); after every transition get_elements in all flag combinations, every built-in default, 15 parse probes and instance defaults are compared with a reference registry; futures after reset are covered because search continues from the reset state and the canonical state includes the module-internal dicts.",
+            "Every history is replayed from a hard reset done by the harness, not by the reset() under test; re-registering built-in class objects is outside the alphabet.", "DESIGN.md section 4, C15"),
 }
 
 NOT_YET = "check not built yet in this round (planned, see DESIGN.md section 4)"
